@@ -591,6 +591,13 @@ def run(ck: Check):
         ["TTModel.C13_Json", "TTModel.C13_Loader", "TTGen.C13_LoaderCfg", "TTProofs.Props.C13", "drv_c13"],
         "TTProofs/Props/C13.lean",
     )
+    try:
+        import c19
+
+        ck.extra["tensor_constructors_without_dtype"] = c19.scan_tensor_constructors(
+            [REPO / "torchtree" / "core" / x for x in ("utils.py", "serializable.py", "parameter.py")] + [REPO / "torchtree" / "torchtree.py"])
+    except Exception:  # noqa: BLE001
+        pass
     drv = ck.driver("drv_c13")
     found = []
     try:
